@@ -108,25 +108,24 @@ Proof. vm_compute. auto. Qed.
 
 (* ------------------------------------------------------------ MetadataSchema() *)
 
-(* what acceptance guarantees about the top-level properties (the three extra validators) *)
+(* what acceptance guarantees about the top-level properties (the extra validators) *)
 Theorem construct_accept_top_rules t req ps :
   construct t = CAccept -> t_schema t = SObj (Some req) ps ->
   forall p, In p ps ->
-    leaf_needs_format (snd p) = false /\ neg_length (snd p) = false /\
+    leaf_needs_format (snd p) = false /\ null_nonpad (snd p) = false /\ neg_length (snd p) = false /\
     (key_in (pkey p) req = true \/ p_default (snd (fst p)) <> None).
 Proof.
   unfold construct. intros Hc Hs p Hin. rewrite Hs in Hc.
   destruct (negb c12_pascal_zero_allowed && has_pas0 (SObj (Some req) ps)); [discriminate|].
-  destruct (existsb (fun p : prop => leaf_needs_format (snd p)) ps) eqn:E1; [discriminate|].
-  destruct (existsb (fun p : prop => neg_length (snd p)) ps) eqn:E2; [discriminate|].
-  destruct (existsb (fun p : prop => negb (key_in (pkey p) req) &&
-              match p_default (snd (fst p)) with None => true | Some _ => false end) ps) eqn:E3; [discriminate|].
+  destruct (top_rules (Some req) ps) eqn:E; [discriminate|]. clear Hc.
+  unfold top_rules in E.
+  apply orb_false_iff in E as [E E4]. apply orb_false_iff in E as [E E3]. apply orb_false_iff in E as [E1 E2].
   assert (forall (f : prop -> bool), existsb f ps = false -> f p = false) as HF.
   { intros f Hf. destruct (f p) eqn:Efp; auto.
     assert (existsb f ps = true) by (apply existsb_exists; eauto). congruence. }
-  repeat split; [apply (HF _ E1) | apply (HF _ E2) |].
-  apply HF in E3. apply andb_false_iff in E3 as [E3|E3].
-  - left. apply negb_false_iff in E3. auto.
+  repeat split; [apply (HF _ E1) | apply (HF _ E2) | apply (HF _ E3) |].
+  apply HF in E4. apply andb_false_iff in E4 as [E4|E4].
+  - left. apply negb_false_iff in E4. auto.
   - right. destruct (p_default (snd (fst p))); [discriminate|discriminate].
 Qed.
 
@@ -159,7 +158,8 @@ Proof.
     split; [reflexivity|]. do 2 eexists. repeat split; reflexivity.
 Qed.
 
-(* F9c, continued: object_encode's `except KeyError` also catches the KeyError raised *inside* the
+(* F9k (fixed by 83f7d7c; historical, under the pinned value of the regenerated fact):
+   object_encode's `except KeyError` also catches the KeyError raised *inside* the
    encoder of a nested object, and then encodes the enclosing property's default instead — the
    value the caller supplied ("b": 1) is silently replaced ("b": 6):
    {"o": {"type":"object","properties":{"a":i,"b":i},"required":["b"],"default":{"a":5,"b":6}}}
@@ -171,7 +171,7 @@ Definition subst_schema : top :=
                    [([97], {| p_index := 0; p_default := None |}, SLeaf TInteger (Some (BInt Ii)) false);
                     ([98], {| p_index := 0; p_default := None |}, SLeaf TInteger (Some (BInt Ii)) false)])] |}.
 
-Theorem nested_keyerror_substitutes_default_refuted :
+Theorem nested_keyerror_substitutes_default_pinned_refuted :
   c12_encode_swallows_nested_keyerror = true ->      (* as long as metadata.py has the try/except *)
   let v := VObj [([111], VObj [([98], VInt 1)])] in
   construct subst_schema = CAccept /\
@@ -179,4 +179,10 @@ Theorem nested_keyerror_substitutes_default_refuted :
   validate_and_encode round32_impl (modify_top subst_schema) v = EOk [5; 0; 0; 0; 6; 0; 0; 0] /\
   decode_top widen32_impl 0 (modify_top subst_schema) [5; 0; 0; 0; 6; 0; 0; 0] =
     DOk (VObj [([111], VObj [([97], VInt 5); ([98], VInt 6)])]) [].
+Proof. intros H. vm_compute in H. first [discriminate H | vm_compute; auto]. Qed.
+
+(* ... and the repaired code: the KeyError of the nested encoder is no longer swallowed *)
+Theorem nested_keyerror_propagates :
+  c12_encode_swallows_nested_keyerror = false ->
+  validate_and_encode round32_impl (modify_top subst_schema) (VObj [([111], VObj [([98], VInt 1)])]) = EErr EKey.
 Proof. intros H. vm_compute in H. first [discriminate H | vm_compute; auto]. Qed.
